@@ -1,1 +1,234 @@
+(* C10 — run_progress returns exactly the draws run would return; it terminates for every number
+   of chains (also more chains than progress bars) and every completion order of the chain
+   threads; a reporter that stops listening changes neither the draws nor the termination of
+   the chain workers.
+   Models: Model/Reporter.v — (a) the chain worker `worker_loop` = the loop of run_chain plus
+   progress messages, sent when the wall clock says so (`due`, arbitrary) or at the last
+   iteration; a send may fail (`send`, arbitrary), which is only logged; the worker is a
+   structural recursion over its n+d iterations, so it terminates whatever `due`/`send` are.
+   (b) the reporter thread as a transition system over `rep`: `deliver` (a message becomes the
+   most recent one of its chain), `tick` (one iteration of the loop body), exit test `rep_done`.
+   Proofs: Proofs/Reporter.v, Proofs/Run.v.  Only statements, `exact`, Print Assumptions. *)
+From Coq Require Import Sorting.Sorted.
 From MiniMcmc Require Import Model.Reporter.
+From MiniMcmc Require Import Proofs.Run Proofs.Reporter.
+From MiniMcmc Require Import Base.Util Model.Run.
+
+(* ------------------------------------------------------------------ chain worker *)
+Section C10_worker.
+  Context {St Row : Type}.
+  Variable step : St -> St.       (* any transition: MH, Gibbs, NUTS, user-defined MarkovChain *)
+  Variable obs : St -> Row.
+  Variable zero : Row.
+
+  (* (W1) whatever the timing of the messages and whichever sends fail, the final chain state
+     and the output rows are those of run_chain *)
+  Theorem C10_same_draws : forall (due send : nat -> bool) s n d,
+    fst (run_chain_progress_impl step obs zero due send s n d) = run_chain_impl step obs zero s n d.
+  Proof. exact (worker_same_draws step obs zero). Qed.
+
+  (* ... i.e. n+d transitions, row k = state after d+k+1 of them *)
+  Theorem C10_same_draws_spec : forall (due send : nat -> bool) s n d,
+    fst (run_chain_progress_impl step obs zero due send s n d)
+    = (iter (n + d) step s, map (fun k => obs (iter (d + k + 1) step s)) (seq 0 n)).
+  Proof. exact (worker_draws_spec step obs zero). Qed.
+
+  (* a reporter that stops listening (any other `send`), or any other clock, changes nothing *)
+  Theorem C10_draws_independent_of_reporter : forall (due1 due2 send1 send2 : nat -> bool) s n d,
+    fst (run_chain_progress_impl step obs zero due1 send1 s n d)
+    = fst (run_chain_progress_impl step obs zero due2 send2 s n d).
+  Proof. exact (worker_draws_independent step obs zero). Qed.
+
+  (* (W2) the message stream: it ends with the message n = total = n+d (whose delivery flag is
+     whatever the channel answered); all values lie in 1..total and increase strictly *)
+  Theorem C10_final_message : forall (due send : nat -> bool) s n d, 1 <= n + d ->
+    let msgs := snd (run_chain_progress_impl step obs zero due send s n d) in
+    (exists l, msgs = l ++ [(n + d, send (length l))]) /\
+    msgs <> [] /\
+    fst (last msgs (0, false)) = n + d /\
+    (forall m, In m msgs -> 1 <= fst m <= n + d) /\
+    StronglySorted lt (map fst msgs).
+  Proof. exact (worker_messages step obs zero). Qed.
+
+  (* hence n = total is sent exactly once, last: a finished chain sends nothing further *)
+  Theorem C10_total_only_last : forall (due send : nat -> bool) s n d, 1 <= n + d ->
+    exists l b, snd (run_chain_progress_impl step obs zero due send s n d) = l ++ [(n + d, b)] /\
+                forall m, In m l -> fst m < n + d.
+  Proof. exact (worker_total_only_last step obs zero). Qed.
+
+  (* (W3) NUTSChain::run_progress: n+d transitions, row k after d+k+1 of them — the run()
+     trajectory shifted by its one-draw offset *)
+  Theorem C10_nuts_progress_offset : forall s n d,
+    nuts_run_progress_impl step obs zero s n d
+    = (iter (n + d) step s, map (fun k => obs (iter (d + k + 1) step s)) (seq 0 n)).
+  Proof. exact (nuts_run_progress_spec step obs zero). Qed.
+
+  Theorem C10_nuts_progress_is_shifted_run : forall s n d, 1 <= n ->
+    snd (nuts_run_progress_impl step obs zero s n d)
+    = snd (nuts_run_impl step obs zero (step s) n d).
+  Proof. exact (nuts_progress_is_shifted_run step obs zero). Qed.
+End C10_worker.
+
+(* ------------------------------------------------------------------ reporter *)
+(* counted r i  :=  i < next_active r /\ ~ In i (active r)     (chain i was counted as finished)
+   Inv total r  :=  NoDup (active r) /\ (forall i, In i (active r) -> i < next_active r) /\
+                    next_active r <= length (recent r) /\
+                    n_finished r + length (active r) = next_active r /\
+                    length (active r) <= 5 /\
+                    (forall i, counted r i -> fin total r i = true) /\
+                    (next_active r < length (recent r) -> length (active r) = 5)
+   all_fin total r := forall i, i < length (recent r) -> fin total r i = true *)
+
+(* (R1) the initial state, for every number of chains *)
+Theorem C10_inv_init : forall total n,
+  Inv total (rep_init n) /\ length (recent (rep_init n)) = n.
+Proof. intros total n. exact (conj (inv_init total n) (rep_init_length n)). Qed.
+
+(* (R2) a message arrives: only `recent` changes; the invariant is kept provided a chain whose
+   most recent message is the final one sends nothing else (C10_total_only_last) *)
+Theorem C10_deliver_frame : forall i m r,
+  active (deliver i m r) = active r /\ next_active (deliver i m r) = next_active r /\
+  n_finished (deliver i m r) = n_finished r /\
+  length (recent (deliver i m r)) = length (recent r) /\
+  rep_done (deliver i m r) = rep_done r.
+Proof.
+  intros i m r. exact (conj (deliver_active i m r) (conj (deliver_next_active i m r)
+    (conj (deliver_n_finished i m r) (conj (deliver_length i m r) (deliver_rep_done i m r))))).
+Qed.
+
+Theorem C10_inv_deliver : forall total i m r,
+  Inv total r -> (fin total r i = true -> m = total) -> Inv total (deliver i m r).
+Proof. exact inv_deliver. Qed.
+
+(* (R3) one iteration of the reporter loop *)
+Theorem C10_inv_tick : forall total r,
+  Inv total r -> Inv total (tick total r) /\ recent (tick total r) = recent r.
+Proof. intros total r H. exact (conj (inv_tick total r H) (tick_recent total r)). Qed.
+
+(* the hand-over of progress bars: with k finished entries in `act`, min k (n - next) fresh
+   chains get a bar, the others are dropped; the new list consists of the unfinished entries
+   and the fresh indices next .. next'-1 *)
+Theorem C10_walk : forall total r n act next, next <= n ->
+  let k := length (filter (fin total r) act) in
+  let res := walk total r n act next in
+  snd res = next + Nat.min k (n - next) /\
+  length (fst res) + k = length act + (snd res - next) /\
+  (forall i, In i (fst res) <-> (In i act /\ fin total r i = false) \/ (next <= i < snd res)).
+Proof. exact walk_spec. Qed.
+
+(* every state reachable from rep_init n by message arrivals and loop iterations, in any
+   interleaving, satisfies the invariant *)
+Theorem C10_reachable_inv : forall total n r,
+  reach total n r -> Inv total r /\ length (recent r) = n.
+Proof. exact reach_inv. Qed.
+
+(* (R4) the loop never exits before the final message of every chain has been received *)
+Theorem C10_no_early_exit : forall total r,
+  Inv total r -> rep_done r = true -> forall i, i < length (recent r) -> fin total r i = true.
+Proof. exact no_early_exit. Qed.
+
+Theorem C10_done_iff : forall total r, Inv total r ->
+  (rep_done r = true <-> next_active r = length (recent r) /\ active r = []).
+Proof. exact rep_done_iff. Qed.
+
+(* (R5) once every final message is in: a tick counts every shown chain and shows the next
+   (at most 5) chains *)
+Theorem C10_reporter_progress : forall total r,
+  Inv total r -> (forall i, i < length (recent r) -> fin total r i = true) ->
+  n_finished (tick total r) = n_finished r + length (active r) /\
+  n_finished (tick total r) = next_active r /\
+  next_active (tick total r)
+    = next_active r + Nat.min (length (active r)) (length (recent r) - next_active r) /\
+  length (active (tick total r)) = Nat.min 5 (length (recent r) - next_active r).
+Proof. exact reporter_progress. Qed.
+
+(* (R6) ... and the loop exits within n/5 + 2 iterations, for every number n of chains *)
+Theorem C10_reporter_terminates : forall total r,
+  Inv total r -> (forall i, i < length (recent r) -> fin total r i = true) ->
+  exists k, k <= length (recent r) / 5 + 2 /\ rep_done (iter k (tick total) r) = true.
+Proof. exact reporter_terminates. Qed.
+
+Theorem C10_reporter_stays_done : forall total r k,
+  Inv total r -> (forall i, i < length (recent r) -> fin total r i = true) ->
+  length (recent r) / 5 + 2 <= k -> rep_done (iter k (tick total) r) = true.
+Proof. exact reporter_terminates_from. Qed.
+
+(* from any reachable state, whatever the order in which the chains completed *)
+Theorem C10_terminates_every_order : forall total n r,
+  reach total n r -> (forall i, i < n -> fin total r i = true) ->
+  exists k, k <= n / 5 + 2 /\ rep_done (iter k (tick total) r) = true.
+Proof. exact reach_terminates. Qed.
+
+Theorem C10_zero_chains : rep_done (rep_init 0) = true.
+Proof. exact rep_done_init_0. Qed.
+
+(* ---- non-vacuity *)
+
+(* worker: counting chain, the clock never fires, the receiver is gone (every send fails):
+   rows and final state are those of run_chain, the only message is the final one *)
+Example C10_worker_counting_chain :
+  run_chain_progress_impl S (fun s => s) 0 (fun _ => false) (fun _ => false) 10 3 2
+    = (15, [13; 14; 15], [(5, false)]) /\
+  run_chain_impl S (fun s => s) 0 10 3 2 = (15, [13; 14; 15]) /\
+  run_chain_progress_impl S (fun s => s) 0 (fun i => Nat.even i) (fun k => Nat.eqb k 0) 10 3 2
+    = (15, [13; 14; 15], [(1, true); (3, false); (5, false)]).
+Proof. repeat split; vm_compute; reflexivity. Qed.
+
+(* reporter: 7 chains (more than 5 bars), total 10, every final message in: done in 2 ticks *)
+Example C10_seven_chains :
+  let r0 := fold_right (fun i r => deliver i 10%N r) (rep_init 7) (seq 0 7) in
+  let r1 := tick 10 r0 in
+  let r2 := tick 10 r1 in
+  reach 10 7 r0 /\ (forall i, i < 7 -> fin 10 r0 i = true) /\
+  rep_done r0 = false /\
+  (n_finished r1, active r1, next_active r1, rep_done r1) = (5, [5; 6], 7, false) /\
+  (n_finished r2, active r2, next_active r2, rep_done r2) = (7, [], 7, true).
+Proof.
+  cbv zeta. split; [|split; [|repeat split; vm_compute; reflexivity]].
+  - cbn [fold_right seq].
+    repeat (apply reach_deliver; [|intros H; vm_compute in H; discriminate H]).
+    apply reach_init.
+  - intros i Hi. do 7 (destruct i as [|i]; [vm_compute; reflexivity|]). lia.
+Qed.
+
+(* another completion order: the two chains without a bar (5, 6) finish first, chain 2 reports
+   an intermediate value; nothing is counted until shown chains finish; the bars of finished
+   chains go to 5 and 6, which are counted in the following iteration *)
+Example C10_seven_chains_other_order :
+  let r0 := deliver 2 4%N (deliver 6 10%N (deliver 5 10%N (rep_init 7))) in
+  let r1 := tick 10 r0 in
+  let r2 := tick 10 (deliver 3 10%N (deliver 0 10%N r1)) in
+  let r3 := tick 10 (deliver 4 10%N (deliver 2 10%N (deliver 1 10%N r2))) in
+  let r4 := tick 10 r3 in
+  reach 10 7 r4 /\
+  (n_finished r1, active r1, next_active r1, rep_done r1) = (0, [0; 1; 2; 3; 4], 5, false) /\
+  (n_finished r2, active r2, next_active r2, rep_done r2) = (2, [5; 1; 2; 6; 4], 7, false) /\
+  (n_finished r3, active r3, next_active r3, rep_done r3) = (7, [], 7, true) /\
+  rep_done r4 = true.
+Proof.
+  cbv zeta. split; [|repeat split; vm_compute; reflexivity].
+  repeat first [ apply reach_tick
+               | apply reach_deliver; [|intros H; vm_compute in H; discriminate H]
+               | apply reach_init ].
+Qed.
+
+Print Assumptions C10_same_draws.
+Print Assumptions C10_same_draws_spec.
+Print Assumptions C10_draws_independent_of_reporter.
+Print Assumptions C10_final_message.
+Print Assumptions C10_total_only_last.
+Print Assumptions C10_nuts_progress_offset.
+Print Assumptions C10_nuts_progress_is_shifted_run.
+Print Assumptions C10_inv_init.
+Print Assumptions C10_deliver_frame.
+Print Assumptions C10_inv_deliver.
+Print Assumptions C10_inv_tick.
+Print Assumptions C10_walk.
+Print Assumptions C10_reachable_inv.
+Print Assumptions C10_no_early_exit.
+Print Assumptions C10_done_iff.
+Print Assumptions C10_reporter_progress.
+Print Assumptions C10_reporter_terminates.
+Print Assumptions C10_reporter_stays_done.
+Print Assumptions C10_terminates_every_order.
+Print Assumptions C10_zero_chains.
